@@ -23,7 +23,9 @@
  *       foreground, underline, italic, flash);
  *   (3) any channel whose fetched page changed during the letter: a VBI_EVENT_CAPTION with
  *       that pgno was raised during the letter ("whenever the visible page changed" - an
- *       event without a change is not a violation).
+ *       event without a change is not a violation);
+ *  (3b) the page a handler fetches from inside the last VBI_EVENT_CAPTION of the letter for a channel (the use
+ *       event.h documents) equals the page after the letter: a change after the last event has no event behind it.
  *
  * Left undefined (not compared / history not continued) because the standard leaves it open or
  * two readings exist (see DESIGN.md C08 "False-alarm guard"):
@@ -442,12 +444,20 @@ static unsigned evmask;
 static int frame_no;
 static uint64_t n_events;
 
+/* what a client sees that does what event.h documents ("the expected action is to call vbi_fetch_cc_page()"):
+ * the page fetched from inside the handler of the last event of each channel */
+static vbi_char ev_pg[8][15 * 34];
 static void on_event(vbi_event *ev, void *ud)
 {
         if (ev->type != VBI_EVENT_CAPTION) return;
         int p = ev->ev.caption.pgno;
         evmask |= (p >= 1 && p <= 8) ? 1u << (p - 1) : 1u << 8;
         n_events++;
+        if (p >= 1 && p <= 8 && DEC) {
+                static vbi_page inh;
+                if (vbi_fetch_cc_page(DEC, &inh, p, TRUE) && inh.rows == 15 && inh.columns == 34) memcpy(ev_pg[p - 1], inh.text, sizeof ev_pg[p - 1]);
+                else memset(ev_pg[p - 1], 0xEE, sizeof ev_pg[p - 1]);
+        }
 }
 static int par(int c) { c &= 0x7F; return __builtin_parity(c) ? c : c | 0x80; }
 
@@ -645,6 +655,16 @@ static int do_letter(const Letter *l, int audit)
                         char key[160]; snprintf(key, sizeof key, "no caption event: %s in %s changed the visible page", LCN[agg.cls], ch == t ? MODEN[agg.mode_before] : "another channel");
                         if (suspect.have) snprintf(key, sizeof key, "no caption event for a changed page; %s in %s: %s of the decoder differs from the standard", LCN[suspect.cls], MODEN[suspect.mode], suspect.what);
                         report(key, "page of %s changed during letter '%s' but no VBI_EVENT_CAPTION pgno=%d was raised (events seen: mask %x)", CHN[ch], l->name, ch + 1, evmask);
+                }
+        /* (3b) the event must come after the change it announces: the page a handler fetches when the last event of the
+         * letter for a channel arrives is the page as it is after the letter (anything else is a change without an event behind it) */
+        for (int ch = 0; ch < 8 && !bad; ch++)
+                if ((evmask & (1u << ch)) && memcmp(ev_pg[ch], now_pg[ch], sizeof now_pg[ch])) {
+                        int r = 0; for (r = 0; r < 15; r++) if (memcmp(&now_pg[ch][r * PCOLS], &ev_pg[ch][r * PCOLS], PCOLS * sizeof(vbi_char))) break;
+                        char was[40], is[40]; row_str(was, sizeof was, &ev_pg[ch][r * PCOLS]); row_str(is, sizeof is, &now_pg[ch][r * PCOLS]);
+                        char key[200]; snprintf(key, sizeof key, "caption event raised before the change: page fetched in the handler of the last event differs from the page after the pair; %s in %s",
+                                                LCN[agg.cls], ch == t ? MODEN[agg.mode_before] : "another channel");
+                        report(key, "page of %s during letter '%s': row %d in the handler [%s], after the pair [%s]", CHN[ch], l->name, r + 1, was, is);
                 }
         /* (1) frame condition */
         for (int ch = 0; ch < 8 && !bad; ch++)
